@@ -84,6 +84,42 @@ pub fn decide(prop: &str, out: &RunOut, cfg: &Cfg, replicas: &[Cfg], stats: &mut
                 foreign: None,
             };
         }
+        if prop == "C19" {
+            // the base run stopped at a clause another property owns. If a replica of the same
+            // plan does not stop there in the same way, the behaviour depends on the hash seed or
+            // on (N, capacity) — which is C19's business whatever the clause is.
+            let upto = &out.plan[..(f.step + 1).min(out.plan.len())];
+            for (k, rc) in replicas.iter().enumerate() {
+                let r = replay(rc, upto, false);
+                stats.bump("replica.executions");
+                stats.bump("replica.after_foreign_failure");
+                let kind = if rc == cfg {
+                    "identical"
+                } else if rc.contract.is_some() {
+                    "K"
+                } else {
+                    "H"
+                };
+                let same = matches!(&r.failure, Some(rf) if rf.clause == f.clause && rf.step == f.step);
+                if !same {
+                    let what = r.failure.as_ref().map_or_else(
+                        || "passes".to_string(),
+                        |rf| format!("fails {} at step {}", rf.clause, rf.step),
+                    );
+                    return Verdict {
+                        violation: Some(Violation {
+                            clause: format!("replica.{kind}.outcome-differs"),
+                            step: f.step,
+                            message: format!(
+                                "base (N={}, cap={}) fails {} at step {} ({}); replica {k} (N={}, cap={}, hash_xor={:#x}) {what}",
+                                cfg.n, cfg.cap, f.clause, f.step, f.message, rc.n, rc.cap, rc.hash_xor
+                            ),
+                        }),
+                        foreign: None,
+                    };
+                }
+            }
+        }
         return Verdict {
             violation: None,
             foreign: Some(f.clause.to_string()),
